@@ -590,6 +590,10 @@ class ExcAnalysis:
                 return
             ob(n, 'subscript', 'IndexError', text + ' on a possibly empty sequence')
             return
+        why = self._bounded_index(fn, recv, idx, n)
+        if why:
+            ob(n, 'subscript', 'IndexError', text, discharged=why)
+            return
         ob(n, 'subscript', 'IndexError' if rt[0] in ('list', 'str', 'tuple') or idx_is_int else 'LookupError',
            text + ' with an index that is not bounded by a guard')
 
@@ -863,6 +867,92 @@ class ExcAnalysis:
                 if member_expr(idx) or (kid is not None and kid[0] == 'enum' and kid[1] == en.fq) or \
                         (strip_opt(it) == ('cls', en.fq) and it[0] != 'opt' and self.abs.at(fn, idx, node).none != YES):
                     return f'`{name}` has an entry for every member of {en.name} and is never shrunk'
+        return None
+
+    def _bounded_index(self, fn: FuncInfo, recv: ast.expr, idx: ast.expr, node: ast.AST) -> Optional[str]:
+        """`recv[i]` / `recv[u - 1]` with integer locals whose every assignment is monotone: i starts at a constant >= 0 and is
+        only incremented, u starts at len(recv) and is only decremented; a dominating test (the left operands of the same
+        `and`, an enclosing while / if) orders them: i < u  (so 0 <= i < len), or u > j with j >= 0 (so 0 <= u - 1 < len)."""
+        if not isinstance(recv, ast.Name):
+            return None
+        L = recv.id
+        if any(isinstance(x, ast.Name) and x.id == L and isinstance(x.ctx, ast.Store) for x in iter_own_nodes(fn.node)):
+            return None         # the sequence itself is re-bound: its length is not a fixed bound
+        # `recv` must not be shrunk in place either
+        for x in iter_own_nodes(fn.node):
+            if isinstance(x, ast.Call) and isinstance(x.func, ast.Attribute) and isinstance(x.func.value, ast.Name) and \
+                    x.func.value.id == L and x.func.attr in ('pop', 'remove', 'clear', '__delitem__'):
+                return None
+            if isinstance(x, ast.Delete):
+                return None
+        assigns: Dict[str, List[Tuple[str, ast.expr]]] = {}
+        for x in iter_own_nodes(fn.node):
+            if isinstance(x, ast.Assign) and len(x.targets) == 1:
+                t, v = x.targets[0], x.value
+                if isinstance(t, ast.Name):
+                    assigns.setdefault(t.id, []).append(('=', v))
+                elif isinstance(t, (ast.Tuple, ast.List)) and isinstance(v, (ast.Tuple, ast.List)) and len(t.elts) == len(v.elts):
+                    for a_, b_ in zip(t.elts, v.elts):
+                        if isinstance(a_, ast.Name):
+                            assigns.setdefault(a_.id, []).append(('=', b_))
+                elif isinstance(t, (ast.Tuple, ast.List)):
+                    for a_ in t.elts:
+                        if isinstance(a_, ast.Name):
+                            assigns.setdefault(a_.id, []).append(('?', v))
+            elif isinstance(x, ast.AugAssign) and isinstance(x.target, ast.Name):
+                assigns.setdefault(x.target.id, []).append(('+' if isinstance(x.op, ast.Add) else '-' if isinstance(x.op, ast.Sub) else '?', x.value))
+            elif isinstance(x, (ast.For, ast.comprehension)) and isinstance(x.target, ast.Name):
+                assigns.setdefault(x.target.id, []).append(('?', x.iter))
+        params = {a.arg for a in fn.params()}
+
+        def pos_const(e) -> bool:
+            return isinstance(e, ast.Constant) and isinstance(e.value, int) and not isinstance(e.value, bool) and e.value > 0
+
+        def is_len(e, depth=0) -> bool:
+            if isinstance(e, ast.Call) and getattr(e.func, 'id', '') == 'len' and len(e.args) == 1 and \
+                    isinstance(e.args[0], ast.Name) and e.args[0].id == L:
+                return True
+            if isinstance(e, ast.Name) and depth < 3 and e.id not in params:
+                a = assigns.get(e.id, [])
+                return len(a) == 1 and a[0][0] == '=' and is_len(a[0][1], depth + 1)
+            return False
+
+        def lower0(nm: str) -> bool:     # nm >= 0 always
+            a = assigns.get(nm, [])
+            return bool(a) and nm not in params and all(
+                (k == '=' and isinstance(v, ast.Constant) and isinstance(v.value, int) and v.value >= 0) or (k == '+' and pos_const(v))
+                for k, v in a)
+
+        def upper_len(nm: str) -> bool:  # nm <= len(recv) always
+            a = assigns.get(nm, [])
+            return bool(a) and nm not in params and all((k == '=' and is_len(v)) or (k == '-' and pos_const(v)) for k, v in a)
+
+        facts: List[Tuple[str, str]] = []     # (a, b) meaning a < b
+        def add_fact(c: ast.expr, pol: bool):
+            if isinstance(c, ast.Compare) and len(c.ops) == 1 and isinstance(c.left, ast.Name) and isinstance(c.comparators[0], (ast.Name, ast.Call)):
+                a_, b_, op = c.left, c.comparators[0], c.ops[0]
+                bn = b_.id if isinstance(b_, ast.Name) else ('len' if is_len(b_) else None)
+                if bn is None:
+                    return
+                if (isinstance(op, ast.Lt) and pol) or (isinstance(op, ast.GtE) and not pol):
+                    facts.append((a_.id, bn))
+                if (isinstance(op, ast.Gt) and pol) or (isinstance(op, ast.LtE) and not pol):
+                    facts.append((bn, a_.id))
+        for c, pol in self.abs.facts_at(node):
+            add_fact(c, pol)
+        for c, pol in self.flow.path_conditions(node):
+            add_fact(c, pol)
+
+        def lt_len(nm: str) -> bool:      # nm < some u with u <= len
+            return any(a_ == nm and (b_ == 'len' or upper_len(b_)) for a_, b_ in facts)
+
+        if isinstance(idx, ast.Name) and lower0(idx.id) and lt_len(idx.id):
+            return f'0 <= {idx.id} (starts at a constant, only incremented) and a dominating test keeps it below a bound <= len({L})'
+        if isinstance(idx, ast.BinOp) and isinstance(idx.op, ast.Sub) and isinstance(idx.left, ast.Name) and \
+                isinstance(idx.right, ast.Constant) and idx.right.value == 1:
+            u = idx.left.id
+            if (upper_len(u) or is_len(idx.left)) and any(b_ == u and (lower0(a_)) for a_, b_ in facts):
+                return f'{u} <= len({L}) (starts at the length, only decremented) and a dominating test keeps it above a value >= 0'
         return None
 
     def _in_annotation(self, n: ast.AST) -> bool:
